@@ -7,7 +7,7 @@
                                          query > environment > default vocabulary > {labelN} > empty)
      caskethttp/httpserver/recorder.go   ResponseRecorder.WriteHeader / Write
      caskethttp/log/setup.go             logParse + appendEntry (one rule per distinct scope string,
-                                         the exception list shared by all log directives of a site)
+                                         one exception list per log directive)
      caskethttp/log/log.go               Logger.ServeHTTP (first matching rule, fallback error
                                          response written through the recorder, one line per entry)
      caskethttp/errors/errors.go         ErrorHandler.ServeHTTP / recovery (as a script transformer)
@@ -335,13 +335,12 @@ Fixpoint append_entry (rules : list rule) (scope : bytes) (e : entry) : list rul
                then {| ru_scope := ru_scope r; ru_entries := ru_entries r ++ [e] |} :: rs
                else r :: append_entry rs scope e
   end.
-(* logParse: `logExceptions` is declared outside the per-directive loop, so every directive's
-   logger also carries the exceptions of the directives before it *)
-Fixpoint parse_logs (ds : list directive) (i : nat) (acc : list bytes) (rules : list rule) : list rule :=
+(* logParse: `logExceptions` is declared inside the per-directive loop, so every directive's
+   logger carries exactly the `except` paths written in its own block *)
+Fixpoint parse_logs (ds : list directive) (i : nat) (rules : list rule) : list rule :=
   match ds with
   | [] => rules
-  | d :: r => let exc := acc ++ d_except d in
-              parse_logs r (S i) exc (append_entry rules (d_scope d) {| n_id := i; n_except := exc |})
+  | d :: r => parse_logs r (S i) (append_entry rules (d_scope d) {| n_id := i; n_except := d_except d |})
   end.
 
 Definition should_log (cs : bool) (exc : list bytes) (path : bytes) : bool :=
@@ -405,7 +404,7 @@ Definition inner_flat (tbl : list (Z * N)) (haserr hdrw : bool) (ops : list wop)
 Definition site_serve (c : wcfg) (cs : bool) (tbl : list (Z * N)) (haserr hdrw : bool)
            (ds : list directive) (path : bytes) (ops : list wop) (ret : Z) : Z * N * list line :=
   let '(ops1, ret1) := inner_flat tbl haserr hdrw ops ret in
-  let '(u, ret2, p, lines) := log_serve c cs tbl 1 (parse_logs ds 0 [] []) path ops1 ret1 uw0 in
+  let '(u, ret2, p, lines) := log_serve c cs tbl 1 (parse_logs ds 0 []) path ops1 ret1 uw0 in
   let u' := if p then fst (fst (run c (u, rec0) (err_ops tbl 1 500)))
             else if (400 <=? ret2)%Z then fst (fst (run c (u, rec0) (err_ops tbl 1 ret2)))
             else u in
@@ -428,12 +427,6 @@ Definition fallback (tbl : list (Z * N)) (ek : N) (ret : Z) : list wop :=
   if (400 <=? ret)%Z then err_ops tbl ek ret else [].
 (* all log directives of the site have the same scope *)
 Definition uniform_scope (sc : bytes) (ds : list directive) : Prop := forall d, In d ds -> d_scope d = sc.
-(* only the last log directive has an except list *)
-Fixpoint exc_only_last (ds : list directive) : Prop :=
-  match ds with
-  | [] => True
-  | d :: r => match r with [] => True | _ => d_except d = [] /\ exc_only_last r end
-  end.
 Definition ids_of (ls : list line) : list nat := map (fun l => fst (fst l)) ls.
 
 (* ---- executable statement of the property on observations --------------------------------- *)
